@@ -176,6 +176,21 @@ def seeds_and_kwargs(rep, a):
             except Exception as e:  # noqa
                 found.append(("C15", "C15_KwargsAccepted", f"{name}(solver={solver}, solver_kwargs={kwargs}) raised {type(e).__name__}: {str(e)[:150]}",
                               dict(kind="solver_kwargs", cls=name, solver=solver, kwargs=kwargs)))
+    # dask back-end: 'auto' and 'randomized' run dask's compressed SVD, nothing else; results equal the numpy fit (10x gap)
+    ref = xe.single.EOF(n_modes=3, solver="full").fit(Xr, "time")
+    for solver in ("auto", "randomized"):
+        for chunks in ({"time": 10}, {"time": -1}, {"time": 20, "x": 6}):
+            _verif.reset()
+            md = xe.single.EOF(n_modes=3, solver=solver, random_state=4).fit(Xr.chunk(chunks), "time")
+            seen = {e["branch"] for e in _verif.events() if e["event"] == "svd_branch"}
+            nfacts += 2
+            if seen != {"dask"}:
+                found.append(("C15", "C15_AutoIsOneOfTwo", f"dask input, solver={solver}: SVD routine(s) {sorted(seen)} ran; the randomised routine for dask data is the compressed SVD",
+                              dict(kind="dask_branch", solver=solver)))
+            a1, a2 = ref.explained_variance().values, md.explained_variance().values
+            if not np.allclose(a1, a2, rtol=1e-6):
+                found.append(("C15", "C15_SolversAgree", f"dask input, solver={solver}, chunks={chunks}: explained variances {a2.tolist()} differ from the exact solver {a1.tolist()}",
+                              dict(kind="dask_values", solver=solver)))
     rep.d_facts += nfacts
     rep.traces += nfacts
     return found
